@@ -994,6 +994,30 @@ impl<A: AvxNum, T: FftNum> AvxPlannerInternal<A, T> {
     }
 }
 
+// Verification hooks: report the plan for a length as text, without constructing the FFT
+#[cfg(feature = "verif_hooks")]
+impl<T: FftNum> FftPlannerAvx<T> {
+    /// Returns the `Debug` text of the plan for `len` (recursing into the inner FFTs of Rader's and Bluestein's bases),
+    /// and the plan's own length
+    pub fn verif_plan_report(&self, len: usize, direction: FftDirection) -> (String, usize) {
+        let plan = self.debug_plan_fft(len, direction);
+        let plan_len = plan.len;
+        let mut text = format!("{:?}", plan);
+        match plan.base {
+            MixedRadixBase::RadersBase(base_len) => {
+                let (inner, _) = self.verif_plan_report(base_len - 1, direction);
+                text.push_str(&format!(" RadersInner[{}]", inner));
+            }
+            MixedRadixBase::BluesteinsBase(_, inner_len) => {
+                let (inner, _) = self.verif_plan_report(inner_len, direction);
+                text.push_str(&format!(" BluesteinsInner[{}]", inner));
+            }
+            _ => {}
+        }
+        (text, plan_len)
+    }
+}
+
 #[cfg(test)]
 mod unit_tests {
     use super::*;
